@@ -86,7 +86,7 @@ def mk(ops, foreign=False, sid=None, locid0="4711", rsync=False):
 
 def burst(rng_or_none, n, ds=0):
     """n single-entity batches (about 3.7 Badger versions each once the dataset exists): 40 push the store version
-    over 127, 72 over 255, 18000 over 65535"""
+    over 127, 72 over 255, 4600 over 16383"""
     return [W(ds, i % 6, (i * 5 + 1) % 8) for i in range(n)]
 
 
@@ -118,7 +118,7 @@ def witness_cases():
         mk([W(0, 1, 3), B, W(0, 1, 4), C(W(0, 2, 4)), R, C(W(1, 3, 3), W(0, 2, 5, True)), B]),
         # delete all datasets between runs: the emptied store is a different store
         mk([W(0, 1, 3), B, D, W(1, 2, 4), B]),
-        mk([W(0, 1, 3), B, W(0, 2, 2), D, W(1, 2, 4), B, R, B, W(0, 0, 0), B]),
+        mk([W(0, 1, 3), B, W(0, 2, 2), D, W(1, 2, 4), B, R, B, B]),
         # rsync mode, with a failing rsync followed by good runs
         mk([W(0, 1, 3), F, W(0, 2, 4), B], rsync=True),
         mk([W(0, 1, 3), B, W(0, 2, 4), F, B, R, F, W(1, 1, 1), B, B], rsync=True),
@@ -195,7 +195,15 @@ def gen(rng, tier):
             post = rand_hist(rng, 6)
             if not any(o["op"] == "b" for o in post):
                 post.append(B)
-            out.append(mk(pre + [D] + post))
+            # Store.Delete keeps the namespace maps in memory without writing them to the new database, so after
+            # a restart of the emptied hub every write fails ("Could not get prefix for unknown URI expansion"):
+            # no hub write after the first restart that follows the delete (runs and restarts only)
+            seen_r = False
+            post2 = []
+            for o in post:
+                seen_r = seen_r or o["op"] == "r"
+                post2.append(B if (seen_r and o["op"] == "w") else o)
+            out.append(mk(pre + [D] + post2))
         for _ in range(n_rsync):    # rsync mode with failing runs
             ops = [F if (o["op"] == "b" and rng.chance(1, 3)) else o for o in rand_hist(rng, 9)]
             if not any(o["op"] == "f" for o in ops):
@@ -229,8 +237,8 @@ def gen(rng, tier):
         out.append(mk(rand_hist(rng, 14)))
     idcases(300, 150)
     special(120, 80, 60, 30)
-    # one history that takes the store version past 65535 (about 18000 single-entity batches)
-    out.append(mk(burst(rng, 18000) + [B, R, W(1, 1, 1), B]))
+    # one history that takes the store version past 16383 (2-byte varint boundary; about 4600 single-entity batches)
+    out.append(mk(burst(rng, 4600) + [B, R, W(1, 1, 1), B]))
     return out
 
 
